@@ -3,11 +3,13 @@ import Otel.C01.Sched
 import Otel.C01.Spec
 import Otel.C01.History
 import Otel.C01.Stuck
+import Otel.C01.Timeout
 open Otel Otel.Wire Otel.C01
 
 /-! Line kinds
 `sched <gen> <cap> <maxB> <blocking> | <op> <op> … => <obs> <obs> …`   one observation per op
-   ops: `e<id>` `u<id>` (OnEnd of an unsampled span) `g+` `g-` `gt` (exporter returns when its context is done: export timeout) `f<fid>` `s`; leg `park` (build tag verif) adds `p<id>`/`r<id>` (OnEnd parked after its stopped check /
+   ops: `e<id>` `u<id>` (OnEnd of an unsampled span) `g+` `g-` `gt` (exporter returns when its context is done: export timeout) `f<fid>` `s`
+        `st` (Shutdown with a context that has already ended); leg `park` (build tag verif) adds `p<id>`/`r<id>` (OnEnd parked after its stopped check /
         released), `fp<fid>`/`fr<fid>` (ForceFlush likewise), `sp`/`sr` (Shutdown parked after storing stopped / released)
    obs: `L=<b1/b2/…>;X=<0|1>;F=<fid>:<p|o|e>,…;S=<n | one of p|o|e per Shutdown call, in call order>;D=<dropped>;Q=<len(queue)>;E=<ids whose OnEnd returned>`
         batches/ids as dot-separated lists, `-` when empty; `H` = number of exporter Shutdown calls so far
@@ -27,6 +29,7 @@ def parseDot (s : String) : Option (List Nat) :=
 def parseOp (t : String) : Option Op :=
   if t == "g+" then some (.gate true) else if t == "g-" || t == "gt" then some (.gate false)
   else if t == "s" then some .sd
+  else if t == "st" then some .sdT
   else if t == "sp" then some .parkSd
   else if t == "sr" then some .releaseSd
   else if t.startsWith "fp" then (dropS t 2).toNat?.map .parkFF
@@ -54,7 +57,7 @@ def obsOf (s : St) : String :=
   let f := if fs.isEmpty then "-" else ",".intercalate (fs.map fun (a, b) => s!"{a}:{b}")
   -- one character per Shutdown call in call order: the call that won `stopOnce`, then the ones waiting in `Once.Do`
   let sd := if s.sd = .none then "n" else
-    (if s.sdRetOk then "o" else "p") ++ String.join (s.sds.reverse.map fun c => if c.ret then "o" else "p")
+    (if s.sdRetOk then "o" else if s.sdRetErr then "e" else "p") ++ String.join (s.sds.reverse.map fun c => if c.ret then "o" else "p")
   let ended := (s.seen.foldr (fun x acc => insertSorted (x, "") acc) []).map (·.1)
   s!"L={l};X={if s.busy.isSome then 1 else 0};F={f};S={sd};D={s.droppedIds.length};Q={s.queue.length};E={dotList ended};H={if s.sd = .shut then 1 else 0}"
 
@@ -88,11 +91,11 @@ def scriptUnsampled (ops : List Op) : List Nat := ops.filterMap fun | .endU id =
 /-- Spec oracle on the observations of a controlled schedule: S1, S2 on every log; S5 at the first
 observation in which a ForceFlush / Shutdown shows as returned nil; F22 classification. -/
 def schedOracle (maxB : Nat) (blocking : Bool) (lateIds : List Nat) (ops : List Op) (obs : List String) :
-    List String × Bool × Bool :=
+    List String × Bool × Bool × Bool :=
   let rec go (allU : List Nat) (ops : List Op) (obs : List String) (prevE : List Nat) (ffPre : List (Nat × List Nat))
       (sdPre : Option (List Nat)) (doneFF : List Nat) (sdPres : List (List Nat)) (prevS : List Char)
-      (bad : List String) (f22 f41 : Bool) :
-      List String × Bool × Bool :=
+      (sdKinds : List Bool) (bad : List String) (f22 f41 f44 : Bool) :
+      List String × Bool × Bool × Bool :=
     match ops, obs with
     | op :: ops', o :: obs' =>
       let batches := ((field o "L").bind parseBatches).getD []
@@ -107,7 +110,7 @@ def schedOracle (maxB : Nat) (blocking : Bool) (lateIds : List Nat) (ops : List 
       let bad := if Spec.unsampledNotExported batches allU then bad else "S6:unsampled-exported" :: bad
       let bad := if Spec.onlyEnded batches (ended ++ (ops.filterMap fun | .end_ id => some id | .parkEnd id => some id | _ => none) ++ prevE) then bad else "S6" :: bad
       let ffPre := match op with | .ff fid => (fid, prevE) :: ffPre | .parkFF fid => (fid, prevE) :: ffPre | _ => ffPre
-      let sdPre := match op, sdPre with | .sd, none => some prevE | .parkSd, none => some prevE | _, p => p
+      let sdPre := match op, sdPre with | .sd, none => some prevE | .sdT, none => some prevE | .parkSd, none => some prevE | _, p => p
       let ffs := parseFF ((field o "F").getD "-")
       let newly := ffs.filter fun (fid, st) => st == "o" && !doneFF.contains fid
       let (bad, f22) := newly.foldl (fun (acc : List String × Bool) (fid, _) =>
@@ -122,26 +125,37 @@ def schedOracle (maxB : Nat) (blocking : Bool) (lateIds : List Nat) (ops : List 
       -- through the late-span race F41: `lateIds` = the spans that sit in the exited worker's queue in the model's run
       -- of the script (`LateEnd_applies`; a parked OnEnd released after the worker's drain had seen the queue empty).
       -- Everything else missing is S5; and a KNOWN verdict counts only if implementation and model agree on the line.
-      let sdPres := match op with | .sd => sdPres ++ [prevE] | .parkSd => sdPres ++ [prevE] | _ => sdPres
+      let sdPres := match op with | .sd => sdPres ++ [prevE] | .sdT => sdPres ++ [prevE] | .parkSd => sdPres ++ [prevE] | _ => sdPres
+      let sdKinds := match op with | .sd => sdKinds ++ [false] | .sdT => sdKinds ++ [true] | .parkSd => sdKinds ++ [false] | _ => sdKinds
       let sdField := ((field o "S").getD "n").toList
       let sdNow := sdField.any (· == 'o')
-      let bad := if sdField.any (· == 'e') then "shutdown-error" :: bad else bad
+      -- a Shutdown call may return an error only if it is the call that won `stopOnce` (the first one) and its context
+      -- had ended (`st`); every other call waits in `Once.Do` and returns nil
+      let bad := if (List.range sdField.length).any (fun i => sdField[i]? == some 'e' && !(i == 0 && sdKinds[i]? == some true))
+        then "shutdown-error" :: bad else bad
+      -- known finding F44: the winning call returned its context's error; the calls that waited in `Once.Do` return nil
+      -- at once, while the shutdown goroutine is still draining — what their nil return fails to guarantee then (S3
+      -- return during an export, S4 exports afterwards, S5 delivery) is classified F44, as long as the exporter has not
+      -- been shut down (afterwards everything holds again: `bsp_shutdown_drain_done`)
+      let winnerErr := sdField[0]? == some 'e'
       let newlyOk := (List.range sdField.length).filter fun i => sdField[i]? == some 'o' && prevS[i]? != some 'o'
-      let (bad, f41) := newlyOk.foldl (fun (acc : List String × Bool) i =>
+      let (bad, f41, f44) := newlyOk.foldl (fun (acc : List String × Bool × Bool) i =>
         let own := sdPres[i]?.getD []
-        if inX then ("S3:shutdown-returned-during-export" :: acc.1, acc.2)
-        else if !Spec.delivered blocking (sdPre.getD []) batches dropped then ("S5:shutdown" :: acc.1, acc.2)
+        let fail (m : String) : List String × Bool × Bool :=
+          if winnerErr && expSd == 0 then (acc.1, acc.2.1, true) else (m :: acc.1, acc.2.1, acc.2.2)
+        if inX then fail "S3:shutdown-returned-during-export"
+        else if !Spec.delivered blocking (sdPre.getD []) batches dropped then fail "S5:shutdown"
         else if !Spec.delivered blocking (own.filter (!lateIds.contains ·)) batches dropped then
-          ("S5:shutdown-own-pre" :: acc.1, acc.2)
-        else if !Spec.delivered blocking own batches dropped then (acc.1, true)   -- only late spans missing [F41]
-        else acc) (bad, f41)
+          fail "S5:shutdown-own-pre"
+        else if !Spec.delivered blocking own batches dropped then (acc.1, true, acc.2.2)   -- only late spans missing [F41]
+        else acc) (bad, f41, f44)
       -- S4: after Shutdown returned the log must not grow: checked by comparing with the next observation
-      let bad := match obs' with
-        | o2 :: _ => if (sdNow || expSd ≥ 1) && (field o2 "L") != (field o "L") then "S4" :: bad else bad
-        | [] => bad
-      go allU ops' obs' ended ffPre sdPre doneFF sdPres sdField bad f22 f41
-    | _, _ => (bad, f22, f41)
-  go (scriptUnsampled ops) ops obs [] [] none [] [] [] [] false false
+      let grows := match obs' with | o2 :: _ => (field o2 "L") != (field o "L") | [] => false
+      let bad := if grows && (expSd ≥ 1 || (sdNow && !winnerErr)) then "S4" :: bad else bad
+      let f44 := f44 || (grows && sdNow && winnerErr && expSd == 0)
+      go allU ops' obs' ended ffPre sdPre doneFF sdPres sdField sdKinds bad f22 f41 f44
+    | _, _ => (bad, f22, f41, f44)
+  go (scriptUnsampled ops) ops obs [] [] none [] [] [] [] [] false false false
 
 def parseEv (t : String) : Option Spec.Ev :=
   if t == "XE" then some .exportEnd
@@ -179,7 +193,9 @@ def stepLine (_ : Unit) (toks : List String) : Unit × Option Verdict :=
       let final := (runSchedP vv ({}, init cap maxB blocking) ops).2.2
       -- the late spans of the model's run: what sits in the queue of the exited worker (`LateEnd_applies`)
       let lateIds := if LateEnd_applies final then spansOf final.queue else []
-      let (bad, f22, f41) := schedOracle maxB blocking lateIds ops obs
+      let (bad, f22, f41, f44) := schedOracle maxB blocking lateIds ops obs
+      -- F44 is accepted only when the winning call's context has ended in the model's run (`ShutdownTimedOut_applies`)
+      let f44model := ShutdownTimedOut_applies final
       -- F22 is accepted only when the model itself took one of ForceFlush's early exits (`F22_applies`)
       let f22model := final.ffs.any (fun f => f.ph == .retEarly)
       -- F41 likewise only when the late-span race has happened in the model (`LateEnd_applies`, History.lean)
@@ -197,6 +213,7 @@ def stepLine (_ : Unit) (toks : List String) : Unit × Option Verdict :=
         stuckFFs.all (fun fid => lastFF.lookup fid == some "p") && stuckEnds.all (fun id => !lastE.contains id)
       let spec := if !bad.isEmpty then "FAIL"
         else if f42 then "KNOWN:F42"
+        else if f44 && f44model then "KNOWN:F44" else if f44 then "FAIL:F44-not-in-model"
         else if f41 && f41model then "KNOWN:F41" else if f41 then "FAIL:F41-not-in-model"
         else if f22 && f22model then "KNOWN:F22" else if f22 then "FAIL" else "ok"
       let br := (if final.droppedIds.isEmpty then [] else ["drop"]) ++
@@ -207,6 +224,7 @@ def stepLine (_ : Unit) (toks : List String) : Unit × Option Verdict :=
         (if final.sdRetOk then ["sd-ok"] else []) ++
         (if final.sds.isEmpty then [] else ["sd-multi"]) ++
         (if final.sds.any (·.ret) then ["sd-late-ok"] else []) ++
+        (if final.sdRetErr then ["sd-timeout"] else []) ++ (if f44 then ["sd-timeout-late-nil"] else []) ++
         (if final.unsampled.isEmpty then [] else ["unsampled"]) ++
         (if f41model then ["late-end"] else []) ++
         (if stuckFFs.isEmpty then [] else ["stuck-ff"]) ++ (if stuckEnds.isEmpty then [] else ["stuck-end"]) ++
